@@ -38,9 +38,11 @@ def voronoi_cells(points):
     return {"face": face, "volume": vol, "open": is_open}
 
 
-def clip_face_area(points, i, j, big=1e4):
+def clip_face_area(points, i, j, big=None):
     """area of the common face of cells i, j by clipping the bisector plane with all other bisector half-spaces (no qhull)"""
     P = np.asarray(points, dtype=float)
+    if big is None:
+        big = 1e3 * float(np.abs(P).max())   # the start square must dwarf the point set whatever its units
     n = P[j] - P[i]
     dist = np.linalg.norm(n)
     n = n / dist
